@@ -88,10 +88,11 @@ def load_contracts(modnames):
 
 
 def _verify_one(item):
-    modnames, target, cli = item
+    modnames, target, cli = item[:3]
+    shard = item[3] if len(item) > 3 else None
     reg, cs = load_contracts(modnames)
     c = reg.by_target[target]
-    r = VF.verify_function(c, reg, cli=cli)
+    r = VF.verify_function(c, reg, cli=cli, shard=shard)
     r.target = c.key
     return {
         "target": target,
@@ -103,6 +104,7 @@ def _verify_one(item):
         "dropped": r.dropped,
         "wall": r.wall,
         "fired_calls": getattr(r, "fired_calls", []),
+        "shard": shard,
     }
 
 
@@ -179,13 +181,28 @@ def run_t1(rep: Report, modnames, pid=None, quick=True, monitor_cases=200):
     except (OSError, ValueError):
         baseline = {}
     rng = random.Random(seed() + 7)
-    items = [(tuple(modnames), c.key, False) for c in cs]
+    items = []
+    for c in cs:
+        n = int(getattr(c, "shards", 1) or 1)
+        if n > 1:
+            items.extend((tuple(modnames), c.key, False, (i, n)) for i in range(n))
+        else:
+            items.append((tuple(modnames), c.key, False))
     results = {}
     for st, r in pmap(_verify_one, items, chunk=1):
         if st != "ok":
             rep.crash(r)
             continue
-        results[r["target"]] = r
+        prev_r = results.get(r["target"])
+        if prev_r is None or r["status"] != "ok" or prev_r["status"] != "ok":
+            if prev_r is None or prev_r["status"] == "ok":
+                results[r["target"]] = r
+            continue
+        # merge shards of the same function
+        prev_r["obligations"].extend(r["obligations"])
+        prev_r["wall"] = max(prev_r["wall"], r["wall"])
+        if r["canary"] is not None:
+            prev_r["canary"] = r["canary"]
     failed_targets = {t for t, r in results.items() if r["status"] != "ok" or any(o["status"] != "discharged" for o in r["obligations"])}
     monitors = {}
     for c in cs:
